@@ -493,7 +493,13 @@ OpResult Hist::run_op(const HOp& op0) {
         S.props = "C12,C04"; S.expect_dying(dying);
         if (!dying.empty() && count(old) == 1) replace_last_ref++;
         S.begin(op);
-        bool ok = op.code == OP_SET ? cbor_array_set(A.impl, idx, nodes[x].impl) : cbor_array_replace(A.impl, idx, nodes[x].impl);
+        bool ok;
+        if (op.code == OP_REPLACE && (op.d & 8) && !light) {
+          // the client as a second writer to the element table (arrays.h: "the items may be reordered and modified as long as references
+          // remain consistent"): it stores the new element itself and keeps the counts right
+          cbor_item_t** h = cbor_array_handle(A.impl); cbor_item_t* oldp = h[idx]; h[idx] = cbor_incref(nodes[x].impl); cbor_decref(&oldp); ok = true;
+          stat_add("raw_handle_replacements");
+        } else ok = op.code == OP_SET ? cbor_array_set(A.impl, idx, nodes[x].impl) : cbor_array_replace(A.impl, idx, nodes[x].impl);
         S.end(); R.executed = true;
         if (!ok) { fail("C12", "replace-in-range-refused", S.ctx + fmt(": index %llu < size %zu but the call returned false", (unsigned long long)idx, size)); return R; }
         nodes[old].in_edges--; nodes[x].in_edges++; nodes[arr].kids[idx] = x;
@@ -591,8 +597,14 @@ OpResult Hist::run_op(const HOp& op0) {
     case OP_COPY: {
       int xi = pick(M_ANY, op.a, true); if (xi < 0) break; int x = pool[xi];
       if (!small_enough(x, TREE_BYTES_MAX, 3000)) break;
-      MV shape = to_value(x); OpScope S(*this, op, "C11"); S.begin(op);
+      MV shape = to_value(x); OpScope S(*this, op, "C11");
+      // a "floating" source: the client has cbor_move()d its only reference away (count 0) and copies the item before some container adopts
+      // it - key = cbor_move(cbor_build_string("id")); cbor_map_add(m, (struct cbor_pair){key, cbor_move(cbor_copy(key))}). Copying only reads.
+      bool floating = !light && (op.d & 4) && count(x) == 1 && nodes[x].ext == 1;
+      S.begin(op);
+      if (floating) (void)cbor_move(nodes[x].impl);
       cbor_item_t* c = cbor_copy(nodes[x].impl);
+      if (floating) { (void)cbor_incref(nodes[x].impl); stat_add("copies_of_floating_source"); }     // the client takes its reference back
       S.end(); R.executed = true; R.requests = S.w.requests; R.refused = S.refused;
       if (S.w.refused > 0) {
         R.reported_failure = c == nullptr;
@@ -707,6 +719,13 @@ OpResult Hist::run_op(const HOp& op0) {
     }
     case OP_DECREF: case OP_INTERMEDIATE_DECREF: {
       if (pool.empty()) break; size_t pi = op.a % pool.size(); int x = pool[pi];
+      if (op.code == OP_DECREF && (op.d & 4) && !light && nodes[x].kind == MK_ARRAY && count(x) == 1 && nodes[x].ext == 1 && !nodes[x].kids.empty() && (int)pool.size() < POOL_MAX) {
+        // moving an element out through the raw handle before dropping the array: mine = h[i]; h[i] = NULL; cbor_decref(&array);
+        // every reference is still released exactly once - the array's reference to that element is now the client's
+        size_t i = (size_t)(op.b % nodes[x].kids.size()); int k = nodes[x].kids[i];
+        cbor_item_t** h = cbor_array_handle(nodes[x].impl);
+        if (h && h[i] == nodes[k].impl) { h[i] = nullptr; nodes[x].kids.erase(nodes[x].kids.begin() + (long)i); nodes[k].in_edges--; nodes[k].ext++; pool.push_back(k); stat_add("elements_moved_out_before_release"); }
+      }
       std::vector<int> dying; std::map<int, int64_t> dec; predict_release(x, dying, dec);
       OpScope S(*this, op, "C04"); S.expect_dying(dying);
       bool shared_child = false; for (int d : dying) for (int k : nodes[d].kids) if (count(k) - dec[k] > 0) shared_child = true;
